@@ -227,12 +227,12 @@ Qed.
 End Term2.
 
 (* ---------------------------------------------------------------- find() of ParallelSpecFinder is total *)
-Theorem find_base_total s1 s2 fuel : (length (all_pairs s1 s2) < fuel)%nat ->
-  find_base s1 s2 fuel = Nothing \/ exists d1 d2, find_base s1 s2 fuel = Found d1 d2.
+Theorem old_base_total s1 s2 fuel : (length (all_pairs s1 s2) < fuel)%nat ->
+  find_base_old s1 s2 fuel = Nothing \/ exists d1 d2, find_base_old s1 s2 fuel = Found d1 d2.
 Proof.
-  intros Hf. pose proof (find_base_never_raises s1 s2 fuel) as Hnr.
-  assert (Hnf : find_base s1 s2 fuel <> NoFuel).
-  { unfold find_base.
+  intros Hf. pose proof (old_base_never_raises s1 s2 fuel) as Hnr.
+  assert (Hnf : find_base_old s1 s2 fuel <> NoFuel).
+  { unfold find_base_old.
     pose proof (first_search_terminates s1 s2 fuel Hf) as Ht.
     pose proof (first_search_sound s1 s2 fuel) as Hs.
     destruct (find s1 s2 fuel (s_root s1) (s_root s2) init_fstate) as [[[|] st]| |e] eqn:E; try discriminate; try contradiction.
@@ -244,7 +244,7 @@ Proof.
     all: try (constructor; fail).
     all: try (intros p []; fail).
     all: try (simpl; lia). }
-  destruct (find_base s1 s2 fuel) as [|d1 d2|c|]; eauto.
+  destruct (find_base_old s1 s2 fuel) as [|d1 d2|c|]; eauto.
   - exfalso. eapply Hnr; eauto.
   - contradiction.
 Qed.
